@@ -233,19 +233,21 @@ impl WTClient {
                 self.dbm
                     .store_appointment_receipt(tower_id, locator, available_slots, receipt)
                     .unwrap();
+            } else {
+                // An accepted appointment is neither pending nor invalid anymore (the above takes care of that as well)
+                if tower.pending_appointments.contains(&locator) {
+                    self.dbm
+                        .delete_pending_appointment(tower_id, locator)
+                        .unwrap();
+                }
+                if tower.invalid_appointments.contains(&locator) {
+                    self.dbm
+                        .delete_invalid_appointment(tower_id, locator)
+                        .unwrap();
+                }
             }
-
-            // An accepted appointment is neither pending nor invalid anymore
-            if tower.pending_appointments.remove(&locator) {
-                self.dbm
-                    .delete_pending_appointment(tower_id, locator)
-                    .unwrap();
-            }
-            if tower.invalid_appointments.remove(&locator) {
-                self.dbm
-                    .delete_invalid_appointment(tower_id, locator)
-                    .unwrap();
-            }
+            tower.pending_appointments.remove(&locator);
+            tower.invalid_appointments.remove(&locator);
         } else {
             log::error!("Cannot add appointment receipt to tower. Unknown tower_id: {tower_id}");
         }
@@ -319,6 +321,7 @@ impl WTClient {
                 return;
             }
             tower.invalid_appointments.insert(appointment.locator);
+            tower.pending_appointments.remove(&appointment.locator);
 
             self.dbm
                 .store_invalid_appointment(tower_id, appointment)
